@@ -216,7 +216,13 @@ def reference_l2(rows, agg, kk):
   return out
 
 
-def agg_rule(agg, src, kk):
+def agg_rule(agg, src, kk, src2=None):
+  if src2:
+    # multi-body aggregation: the same head fed by two rules over two sources
+    one = agg_rule(agg, src, kk)
+    lines = one.split('\n')
+    last = lines[-1]
+    return '\n'.join(lines + [last.replace('%s(k:, a:, v:, w:)' % src, '%s(k:, a:, v:, w:)' % src2)])
   body = '%s(k:, a:, v:, w:)' % src
   if agg == 'Sum':
     return 'TSum(k) += v :- %s;' % body
@@ -364,16 +370,26 @@ EXCLUDED_CELLS = [
 
 def build_program(case, dbpath):
   lines = ['@Engine("sqlite", type_checking: false);']
+  split = case.get('split')
+  src2 = None
   if case['mode'] == 'table':
     lines.append('@AttachDatabase("mydb", "%s");' % dbpath)
     src = 'mydb.D'
+    if split is not None:
+      src2 = 'mydb.D2'
   else:
     src = 'D'
-    for k, a, v, w in case['rows']:
+    rows = case['rows']
+    first = rows if split is None else rows[:split]
+    for k, a, v, w in first:
       lines.append('D(k: %s, a: %s, v: %s, w: %s);' % (lit(k), lit(a), lit(v), lit(w)))
+    if split is not None:
+      src2 = 'D2'
+      for k, a, v, w in rows[split:]:
+        lines.append('D2(k: %s, a: %s, v: %s, w: %s);' % (lit(k), lit(a), lit(v), lit(w)))
   preds = []
   for agg in case['aggs']:
-    lines.append(agg_rule(agg, src, case['kk']))
+    lines.append(agg_rule(agg, src, case['kk'], src2))
     preds.append('T' + agg)
   if case['scalars']:
     for i, (name, expr, _) in enumerate(case['scalars']):
@@ -387,13 +403,14 @@ def build_program(case, dbpath):
   return '\n'.join(lines) + '\n', preds
 
 
-def make_table(dbpath, rows, index):
+def make_table(dbpath, rows, index, split=None):
   if os.path.exists(dbpath):
     os.remove(dbpath)
   c = sqlite3.connect(dbpath)
   c.execute('CREATE TABLE D (k INTEGER, a TEXT, v INTEGER, w INTEGER)')
-  for row in rows:
-    c.execute('INSERT INTO D VALUES (?, ?, ?, ?)', row)
+  c.execute('CREATE TABLE D2 (k INTEGER, a TEXT, v INTEGER, w INTEGER)')
+  for i, row in enumerate(rows):
+    c.execute('INSERT INTO %s VALUES (?, ?, ?, ?)' % ('D2' if split is not None and i >= split else 'D'), row)
   if index:
     c.execute('CREATE INDEX d_idx ON D (%s)' % index)
   c.commit()
@@ -414,7 +431,7 @@ def run_l2(case, scratch):
   vs = []
   try:
     if case['mode'] == 'table':
-      make_table(dbpath, case['rows'], case.get('index'))
+      make_table(dbpath, case['rows'], case.get('index'), case.get('split'))
     text, preds = build_program(case, dbpath)
     try:
       comp = lrun.compiled(text, preds)
@@ -477,7 +494,9 @@ def l2_cases(r, tier):
       o.sort(key=lambda x: -x[2])           # descending: every arrival replaces
     else:
       r.shuffle(o)
-    cases.append({'layer': 'L2', 'rows': o, 'aggs': aggs, 'kk': kk,
+    # two-body aggregation: both sources non-empty (an empty fact predicate is not a program)
+    split = r.randint(1, len(o) - 1) if (len(o) >= 2 and r.random() < 0.35) else None
+    cases.append({'layer': 'L2', 'rows': o, 'aggs': aggs, 'kk': kk, 'split': split,
                   'mode': r.choice(['table', 'table', 'facts']),
                   'index': r.choice([None, None, 'k', 'v', 'a', 'v DESC']),
                   'scalars': scalars if j == 0 else []})
@@ -530,8 +549,11 @@ def shrink(case):
     yield dict(case, aggs=[])
   if case.get('index'):
     yield dict(case, index=None)
-  for rows in minimise.drop_chunks(case['rows'], 1):
-    yield dict(case, rows=rows)
+  if case.get('split') is not None:
+    yield dict(case, split=None)
+  if case.get('split') is None:
+    for rows in minimise.drop_chunks(case['rows'], 1):
+      yield dict(case, rows=rows)
 
 
 def plan(tier):
@@ -579,6 +601,8 @@ def run_batch(seed, batch, tier, scratch):
       vs = run_l2(case, scratch)
       S.runs += 1
       S.counters['L2:mode:' + case['mode']] += 1
+      if case.get('split') is not None:
+        S.probes['L2_two_body_aggregation'] += 1
       for a in case['aggs']:
         S.counters['L2:agg:' + a] += 1
       for name, _, _ in case['scalars']:
@@ -622,7 +646,7 @@ def evidence_meta(tier):
                    'L2: sqlite3_logica.SqliteConnect -> observing proxy (no faults injected in this engine)'],
           'not_run': ['TakeFirst/ANY_VALUE (any value is correct)']},
       'expected_probes': ['heap_replace', 'limit_th_insertion', 'heap_full_arrival', 'interleaved_groups',
-                          'L1_all_permutations_enumerated', 'L2_index_changes_scan_order'],
+                          'L1_all_permutations_enumerated', 'L2_index_changes_scan_order', 'L2_two_body_aggregation'],
       'extra': {'excluded_cells': EXCLUDED_CELLS},
       'assumptions': [
           'defined values: sorted-prefix definition of ArgMin/ArgMax/ArgMinK/ArgMaxK/Array, set semantics for Set, multiset for List, arrival-order concatenation with nulls skipped for ArrayConcatAgg, Python semantics for the scalar cells listed in the rule; cells whose meaning the documentation does not fix for SQLite are excluded and listed',
